@@ -296,6 +296,7 @@ def c11_3(ctx):
     ctx.floor(R, "integer impl pairs", n, 12)
     c11_3_sign_tests(ctx)
     c11_4_bigint(ctx)
+    c11_5_match_byte(ctx)
     # amounts read by the trusted scans go through the same canonical sanitiser (parse_amount) as full validation (shared with C09.2)
     from . import c09
     c09.c09_2(ctx, R="C11.2")
@@ -414,3 +415,112 @@ def c11_4_bigint(ctx):
     if ob:
         names = [U.flat(n).split("::")[-1] for bi, n, t in ob.calls()]
         ctx.ob(R, "allocator-encode_bigint", "new_number" in names, "the Allocator encoder delegates big integers to Allocator::new_number", found=names)
+
+
+def c11_5_match_byte(ctx):
+    """MatchByte<BYTE> (opcode / operator constants in typed CLVM structures) uses the canonical integer form for all 256 values
+    of BYTE: the decoder's accepting paths are evaluated as a decision table over (BYTE, candidate atom): it accepts exactly
+    [] for 0, [BYTE] for 1..=0x7f and [0x00, BYTE] for 0x80..=0xff; the encoder dispatches on the same two thresholds."""
+    R = "C11.5"
+    fb = ctx.fb
+    f = fb.fns.get("<clvm_traits::match_byte::MatchByte<BYTE> as clvm_traits::from_clvm::FromClvm<D>>::from_clvm")
+    if f is None:
+        return ctx.missing(R, "match-byte:decoder", "impl not found")
+    b = Body(f, fb)
+    ctx.touched(b.path)
+    paths_ = []
+    unknown = set()
+    A = "('decode_atom', 'decoder', 'node')"
+    for ev, ex in P.enumerate_paths(b):
+        if ex[0] != "return":
+            continue
+        conds = []
+        for t, l in P.conds(ev):
+            st = str(apnf.N(t))
+            conds.append((st, l))
+        paths_.append((conds, P.ret_class(ev)))
+
+    def holds(st, lab, v, atom):
+        """truth of one path condition for BYTE = v and the candidate atom; None = unknown form"""
+        def val(x):
+            if x == "('cparam', 'BYTE')":
+                return v
+            if x == "('PtrMetadata', %s)" % A:
+                return len(atom)
+            for k in (0, 1):
+                if x == "('[]', %s, %d)" % (A, k):
+                    return atom[k] if k < len(atom) else None
+            try:
+                return int(x)
+            except ValueError:
+                return "?"
+        if st == A:
+            return lab == ("try", True)
+        m = None
+        for op in ("Eq", "Ne", "Lt", "Le", "Gt", "Ge"):
+            if st.startswith("('%s', " % op):
+                m = op
+        if m:
+            inner = st[len("('%s', " % m):-1]
+            # split top-level ", "
+            depth, cut = 0, None
+            for i, ch in enumerate(inner):
+                if ch == "(":
+                    depth += 1
+                elif ch == ")":
+                    depth -= 1
+                elif ch == "," and depth == 0:
+                    cut = i
+                    break
+            if cut is None:
+                return None
+            a_, b_ = val(inner[:cut].strip()), val(inner[cut + 1:].strip())
+            if a_ == "?" or b_ == "?":
+                return None
+            if a_ is None or b_ is None:
+                return False if lab == ("bool", True) else True
+            r = {"Eq": a_ == b_, "Ne": a_ != b_, "Lt": a_ < b_, "Le": a_ <= b_, "Gt": a_ > b_, "Ge": a_ >= b_}[m]
+            return r == lab[1] if lab[0] == "bool" else None
+        x = val(st)
+        if x not in ("?",) and lab[0] in ("in", "notin"):
+            if x is None:
+                return False
+            return (x in lab[1]) == (lab[0] == "in")
+        return None
+
+    bad = []
+    n = 0
+    for v in range(256):
+        canon = [] if v == 0 else ([v] if v < 0x80 else [0, v])
+        for atom in ([], [v], [0, v], [v, 0], [0, v ^ 1], [v ^ 0x80], [0, 0, v]):
+            n += 1
+            verdicts = []
+            for conds, rc in paths_:
+                ok = True
+                for st, lab in conds:
+                    h = holds(st, lab, v, atom)
+                    if h is None:
+                        unknown.add(st[:80])
+                        ok = False
+                        break
+                    if not h:
+                        ok = False
+                        break
+                if ok:
+                    verdicts.append(rc)
+            want = "Ok" if atom == canon else "Err"
+            if verdicts != [want]:
+                bad.append((v, atom, verdicts))
+    ctx.ob(R, "match-byte:decoder", not bad and not unknown,
+           "MatchByte<BYTE>::from_clvm accepts exactly the canonical integer atom of BYTE (table over all 256 values x 7 candidate atoms)",
+           found=(sorted(unknown)[:2] or bad[:3]) or None, where=f.sp)
+    ctx.floor(R, "MatchByte decision-table cells", n, 1792)
+    f2 = fb.fns.get("<clvm_traits::match_byte::MatchByte<BYTE> as clvm_traits::to_clvm::ToClvm<E>>::to_clvm")
+    if f2:
+        b2 = Body(f2, fb)
+        guards = set()
+        for ev, ex in P.enumerate_paths(b2):
+            guards.add(frozenset((str(apnf.N(t)), l[1]) for t, l in P.conds(ev)))
+        e0, l8 = "('Eq', ('cparam', 'BYTE'), 0)", "('Lt', ('cparam', 'BYTE'), 128)"
+        exp = {frozenset({(e0, True)}), frozenset({(e0, False), (l8, True)}), frozenset({(e0, False), (l8, False)})}
+        ctx.ob(R, "match-byte:encoder", guards == exp, "MatchByte<BYTE>::to_clvm dispatches on BYTE == 0 and BYTE < 0x80", found=sorted(map(str, guards ^ exp))[:2] or None)
